@@ -526,15 +526,38 @@ func (x *Exec) evalQuant(kind string, e *ast.CallExpr, st *State, env *Env) Valu
 		// (ghost-map reads such as g[t] would create matching loops with g[t+1] in the body)
 		var hs []string
 		for _, t := range auto {
-			if !strings.HasPrefix(t, "ghost:") {
+			if !strings.HasPrefix(t, "ghost:") && !strings.HasPrefix(t, "ghostnb:") {
 				hs = append(hs, t)
+			}
+		}
+		if len(hs) == 0 {
+			// ghost-only body: reads g[t] of maps that are never read at a composite index (g[t+1]) are
+			// non-looping triggers; without any pattern the solver picks g[t] of a chain map and loops
+			looping := map[string]bool{}
+			for _, t := range auto {
+				if strings.HasPrefix(t, "ghostnb:") {
+					looping[strings.TrimPrefix(t, "ghostnb:")] = true
+				}
+			}
+			for _, t := range auto {
+				if strings.HasPrefix(t, "ghost:") {
+					tt := strings.TrimPrefix(t, "ghost:")
+					f := strings.Fields(strings.Trim(tt, "()"))
+					if len(f) == 3 && !looping[f[1]] {
+						hs = append(hs, tt)
+					}
+				}
 			}
 		}
 		trigs = dedup(hs)
 	} else if len(trigs) == 0 {
-		for i, t := range auto {
-			auto[i] = strings.TrimPrefix(t, "ghost:")
+		var a2 []string
+		for _, t := range auto {
+			if !strings.HasPrefix(t, "ghostnb:") {
+				a2 = append(a2, strings.TrimPrefix(t, "ghost:"))
+			}
 		}
+		auto = a2
 		// multi-pattern: one anchor read per bound variable
 		var parts []string
 		for _, o := range objs {
